@@ -182,6 +182,26 @@ LinkReadOvs(l, sg, sa, sb) ==
 EdgeReadOvs(g, sg, sa, sb) == IF ClassOf(g) = "L" THEN LinkReadOvs(EdgeToLink(g), sg, sa, sb) ELSE {}
 Hairpin(l) == l.t = "L" /\ l.from = l.to /\ l.fo # l.too
 
+\* Ordered groups written on several lines and nested groups (GFA2 text: O lines
+\* with the same identifier are one group, their item lists concatenated in the
+\* order of the lines; an item may be another O group, whose path is walked at
+\* that place -- backwards, every orientation inverted, when the item is `-`).
+\* groups: function  group name -> merged item list;  items: [id, o].
+InvItem(it) == [id |-> it.id, o |-> Inv(it.o)]
+RevInv(s) == [i \in 1..Len(s) |-> InvItem(s[Len(s) + 1 - i])]
+RECURSIVE FlatSeq(_)
+FlatSeq(ss) == IF ss = <<>> THEN <<>> ELSE Head(ss) \o FlatSeq(Tail(ss))
+RECURSIVE ExpandItems(_, _, _)
+ExpandItems(items, groups, d) ==
+  IF items = <<>> THEN <<>> ELSE
+  LET it == Head(items)
+      rest == ExpandItems(Tail(items), groups, d) IN
+  IF d > 0 /\ it.id \in DOMAIN groups THEN
+    LET sub == ExpandItems(groups[it.id], groups, d - 1) IN
+    (IF it.o = "-" THEN RevInv(sub) ELSE sub) \o rest
+  ELSE <<it>> \o rest
+MaxNesting == 4
+
 \* identity of an edge inside a path comparison: oriented pair + alignment
 \* (the intervals are judged by the edge clauses)
 PathKey(g) == {[s1 |-> h.s1, o1 |-> h.o1, s2 |-> h.s2, o2 |-> h.o2, al |-> h.al, star |-> h.star] : h \in EForms(g)}
